@@ -403,7 +403,15 @@ impl BudgetEnforcer {
                     });
                 }
             }
-            Event::DocumentEnd => {}
+            Event::DocumentEnd => {
+                // Per document, the alias/anchor ratio is judged when the document ends (for the
+                // whole input it is judged once, in `finalize`).
+                if self.policy == EnforcingPolicy::PerDocument
+                    && let Some(breach) = self.ratio_breach()
+                {
+                    return Err(breach);
+                }
+            }
             Event::Nothing => {}
             Event::StreamStart | Event::StreamEnd => {}
         }
@@ -533,22 +541,25 @@ impl BudgetEnforcer {
     pub fn finalize(mut self) -> BudgetReport {
         self.report.anchors = self.defined_anchors.len();
 
-        if self.budget.enforce_alias_anchor_ratio
-            && self.report.aliases >= self.budget.alias_anchor_min_aliases
-            && (self.report.anchors == 0
-                || self.report.aliases
-                    > self
-                        .budget
-                        .alias_anchor_ratio_multiplier
-                        .saturating_mul(self.report.anchors))
-        {
-            self.report.breached = Some(BudgetBreach::AliasAnchorRatio {
-                aliases: self.report.aliases,
-                anchors: self.report.anchors,
-            });
+        if let Some(breach) = self.ratio_breach() {
+            self.report.breached = Some(breach);
         }
 
         self.report
+    }
+
+    /// The alias/anchor ratio heuristic on the current counters.
+    fn ratio_breach(&self) -> Option<BudgetBreach> {
+        let anchors = self.defined_anchors.len();
+        (self.budget.enforce_alias_anchor_ratio
+            && self.report.aliases >= self.budget.alias_anchor_min_aliases
+            && (anchors == 0
+                || self.report.aliases
+                    > self.budget.alias_anchor_ratio_multiplier.saturating_mul(anchors)))
+        .then_some(BudgetBreach::AliasAnchorRatio {
+            aliases: self.report.aliases,
+            anchors,
+        })
     }
 }
 
